@@ -1025,6 +1025,8 @@ func (c *Ctx) ruleGatedReset(rule string) {
 			switch {
 			case lazy && !isNilConst(st.Val):
 				r.Ok(rule, construct+":lazy-init", p.InstrPos(in), "a nil container is initialised with an empty one")
+			case noBroker && f.Parent() == nil && isNilConst(st.Val):
+				r.Bad(rule, construct+":nil", p.InstrPos(in), "the container "+name+" is set to nil: Process initialises the containers, releases the lock to expire old groups and relies on them afterwards — a concurrent FlushAll without a Broker makes it panic on the nil list / nil map. Dropping everything must leave empty containers")
 			case noBroker && f.Parent() == nil:
 				r.Ok(rule, construct+":no-broker", p.InstrPos(in), "everything is dropped only where no Broker is configured")
 			default:
@@ -1417,9 +1419,8 @@ func (c *Ctx) ruleChannelCtor() {
 // unconditionally (a full inner loop reached on every iteration). A skip of
 // "already seen ids" that also skips the successors silently leaves every node
 // behind a repeated id out of the reference counts.
-func (c *Ctx) ruleFlatten() {
+func (c *Ctx) ruleFlatten(rule string) {
 	p, r := c.P, c.R
-	const rule = "C06.flatten"
 	fn := c.Fn(rule, PkgRoot, "linkedNode", "flatten")
 	if fn == nil {
 		return
@@ -1492,6 +1493,23 @@ func (c *Ctx) ruleFlatten() {
 			}
 		}
 	})
+	// progress: every iteration takes one node off the worklist (stack = stack[:len(stack)-1]
+	// unconditionally) — a visited node that stays on the stack makes the loop spin forever,
+	// under the Broker's write lock
+	okPop := false
+	eachInstr(fn, func(in ssa.Instruction) {
+		sl, ok := in.(*ssa.Slice)
+		if !ok || sl.High == nil {
+			return
+		}
+		ht := tb.Of(sl.High)
+		if ht.Op == "Bin" && ht.Name == "-" && ht.Args[0].Is("Call", "builtin len") && ht.Args[1].Is("Const", "1") {
+			if unc, _ := unconditionalInLoop(in); unc {
+				okPop = true
+			}
+		}
+	})
+	r.Check(okPop, rule, "flatten:pop", p.Pos(fn.Pos()), "every iteration removes the visited node from the worklist", "the worklist loop does not unconditionally pop the node it visits: for a repeated node id the loop never terminates (while the Broker's write lock is held)")
 	r.Check(okPush, rule, "flatten:push", p.Pos(fn.Pos()), "every successor is pushed (full, unconditional loop over node.next)", "not every successor of a visited node is pushed onto the worklist"+pushWhy)
 }
 
@@ -2089,7 +2107,15 @@ func (c *Ctx) ruleOptionsForwarded() {
 				return derives(x.X, seen)
 			case *ssa.Call:
 				if b, ok := x.Call.Value.(*ssa.Builtin); ok && b.Name() == "append" {
-					return derives(x.Call.Args[0], seen)
+					if derives(x.Call.Args[0], seen) {
+						return true
+					}
+					// a copy: an empty fresh list to which slices of the parameter are appended
+					if sl, isSl := x.Call.Args[1].(*ssa.Slice); isSl {
+						if _, isArr := sl.X.(*ssa.Alloc); !isArr && derives(sl.X, map[ssa.Value]bool{}) {
+							return freshOrCopy(x.Call.Args[0], derives)
+						}
+					}
 				}
 			}
 			return false
@@ -2160,6 +2186,36 @@ func (c *Ctx) ruleNoResweep() {
 	}
 	if n < 1 {
 		r.Und(rule, "instance-floor", "", "no nested-map sweep found in processUnfiltered")
+	}
+	// every tracking set created during the sweep is linked to the set being swept, so that maps
+	// found deeper down (in slices, in struct values) are recognised as tracked by an enclosing sweep
+	for _, ci := range callsTo(fn, func(nm string, cc *ssa.CallCommon) bool { return nm == "filters/encrypt.newTrackedMaps" }) {
+		v, isV := ci.(ssa.Value)
+		if !isV {
+			continue
+		}
+		linked := false
+		for _, ref := range nonDebugRefs(v) {
+			ex, ok := ref.(*ssa.Extract)
+			if !ok || ex.Index != 0 {
+				continue
+			}
+			for _, r2 := range nonDebugRefs(ex) {
+				fa, ok := r2.(*ssa.FieldAddr)
+				if !ok {
+					continue
+				}
+				if st := fa.X.Type().Underlying().(*types.Pointer).Elem().Underlying().(*types.Struct); st.Field(fa.Field).Name() != "parent" {
+					continue
+				}
+				for _, r3 := range nonDebugRefs(fa) {
+					if sto, ok := r3.(*ssa.Store); ok && tb.Of(sto.Val).IsParam("0:maps") {
+						linked = true
+					}
+				}
+			}
+		}
+		r.Check(linked, rule, "processUnfiltered:nested-set-linked", p.InstrPos(ci.(ssa.Instruction)), "a tracking set created during the sweep knows the set it was created from", "a tracking set created during the sweep is not linked to the set being swept (parent): a map found below it that a tag pointer led into is swept again without its record of filtered fields")
 	}
 }
 
@@ -2320,5 +2376,426 @@ func (c *Ctx) rulePointerValues() {
 	}
 	if n < 5 {
 		r.Und(rule, "instance-floor", "", fmt.Sprintf("only %d SetMapIndex calls found in processUnfiltered (5 confirmed by hand)", n))
+	}
+}
+
+// sliceOrigins walks the construction of a slice value through phis, reslices and
+// appends, collecting the append calls and the appended elements, and reports the
+// leaf values it started from (a make, a call result, ...).
+func sliceOrigins(v ssa.Value, seen map[ssa.Value]bool, elems *[]ssa.Value, apps *[]*ssa.Call, leaves *[]ssa.Value) {
+	if v == nil || seen[v] {
+		return
+	}
+	seen[v] = true
+	switch x := v.(type) {
+	case *ssa.Phi:
+		for _, e := range x.Edges {
+			sliceOrigins(e, seen, elems, apps, leaves)
+		}
+	case *ssa.Slice:
+		sliceOrigins(x.X, seen, elems, apps, leaves)
+	case *ssa.Call:
+		if b, ok := x.Call.Value.(*ssa.Builtin); ok && b.Name() == "append" {
+			*apps = append(*apps, x)
+			sliceOrigins(x.Call.Args[0], seen, elems, apps, leaves)
+			if sl, ok := x.Call.Args[1].(*ssa.Slice); ok {
+				if al, ok := sl.X.(*ssa.Alloc); ok {
+					for _, ref := range nonDebugRefs(al) {
+						if ia, ok := ref.(*ssa.IndexAddr); ok {
+							for _, r2 := range nonDebugRefs(ia) {
+								if st, ok := r2.(*ssa.Store); ok {
+									*elems = append(*elems, st.Val)
+								}
+							}
+						}
+					}
+				}
+			}
+			return
+		}
+		*leaves = append(*leaves, v)
+	default:
+		*leaves = append(*leaves, v)
+	}
+}
+
+// fromGlob: the string value is an element of the result of filepath.Glob — read
+// directly, or through a slice accumulated (append) from such elements.
+func fromGlob(tb *Terms, v ssa.Value) bool {
+	isGlobElem := func(e ssa.Value) bool {
+		t := tb.Of(e)
+		return t.Op == "Index" && t.Args[0].Find(func(x *Term) bool { return x.Is("Call", "path/filepath.Glob") }) != nil
+	}
+	if isGlobElem(v) {
+		if ld, ok := stripConv(v).(*ssa.UnOp); ok {
+			if ia, ok := ld.X.(*ssa.IndexAddr); ok {
+				var elems, leaves []ssa.Value
+				var apps []*ssa.Call
+				sliceOrigins(ia.X, map[ssa.Value]bool{}, &elems, &apps, &leaves)
+				if len(apps) == 0 {
+					return true // straight from the glob result
+				}
+				for _, e := range elems {
+					if !isGlobElem(e) {
+						return false
+					}
+				}
+				return true
+			}
+		}
+		return true
+	}
+	ld, ok := stripConv(v).(*ssa.UnOp)
+	if !ok {
+		return false
+	}
+	ia, ok := ld.X.(*ssa.IndexAddr)
+	if !ok {
+		return false
+	}
+	var elems, leaves []ssa.Value
+	var apps []*ssa.Call
+	sliceOrigins(ia.X, map[ssa.Value]bool{}, &elems, &apps, &leaves)
+	if len(elems) == 0 {
+		return false
+	}
+	for _, e := range elems {
+		if !isGlobElem(e) {
+			return false
+		}
+	}
+	return true
+}
+
+// ruleOptionAliasing (C09.optalias): the variadic option lists of the walkers share
+// their backing arrays with the callers' lists.
+//   A. No append targets a truncating reslice (x[:k] without a capacity bound) of a
+//      slice that derives from the function's own slice parameter: such an append
+//      rewrites, or lets later appends rewrite, elements the CALLER still sees — a
+//      write-back pointer appended three levels down ends up in the option list the
+//      caller uses for the next sibling field, whose value is then "filtered" at
+//      that other location and itself forwarded in plaintext.
+//   B. The internal withIgnoreTaggable option is added for one recursion only: the
+//      result of appending it is used as a call argument and never flows back into
+//      the list used for the following fields (no loop-carried phi).
+func (c *Ctx) ruleOptionAliasing() {
+	p, r := c.P, c.R
+	const rule = "C09.optalias"
+	n := 0
+	for _, f := range c.encryptReach() {
+		var params []*ssa.Parameter
+		for _, prm := range f.Params {
+			if _, ok := prm.Type().Underlying().(*types.Slice); ok && strings.HasSuffix(types.TypeString(prm.Type(), shortQual), "[]encrypt.Option") {
+				params = append(params, prm)
+			}
+		}
+		if len(params) == 0 {
+			continue
+		}
+		fromParam := func(v ssa.Value) bool {
+			seen := map[ssa.Value]bool{}
+			var walk func(v ssa.Value) bool
+			walk = func(v ssa.Value) bool {
+				if seen[v] {
+					return false
+				}
+				seen[v] = true
+				switch x := v.(type) {
+				case *ssa.Parameter:
+					for _, prm := range params {
+						if prm == x {
+							return true
+						}
+					}
+				case *ssa.Phi:
+					for _, e := range x.Edges {
+						if walk(e) {
+							return true
+						}
+					}
+				case *ssa.Slice:
+					return walk(x.X)
+				case *ssa.Call:
+					if b, ok := x.Call.Value.(*ssa.Builtin); ok && b.Name() == "append" {
+						// append may return the same backing array
+						return walk(x.Call.Args[0])
+					}
+				}
+				return false
+			}
+			return walk(v)
+		}
+		tb := p.NewTerms(nil)
+		eachInstr(f, func(in ssa.Instruction) {
+			call, ok := in.(*ssa.Call)
+			if !ok {
+				return
+			}
+			b, isB := call.Call.Value.(*ssa.Builtin)
+			if !isB || b.Name() != "append" || !strings.HasSuffix(types.TypeString(call.Type(), shortQual), "[]encrypt.Option") {
+				return
+			}
+			n++
+			// A: destination is a truncating, capacity-unbounded reslice of the parameter's array
+			if sl, ok := call.Call.Args[0].(*ssa.Slice); ok && sl.High != nil && sl.Max == nil && fromParam(sl.X) {
+				r.Bad(rule, p.ShortFn(f)+":append-into-caller-list", p.InstrPos(in), "append targets "+tb.Of(sl).String()+", a truncated view of the option list the caller passed in: it rewrites elements of the caller's list (and lets appends further down land in it), so an option meant for one value — a write-back pointer — is seen by the caller's next sibling field, which is then filtered somewhere else and forwarded in plaintext")
+				return
+			}
+			// B: the ignore-taggable option does not flow back into a loop-carried list
+			if t := tb.Of(call.Call.Args[1]); t.Find(func(x *Term) bool { return x.Is("Call", "filters/encrypt.withIgnoreTaggable") }) != nil && fromParam(call.Call.Args[0]) {
+				for _, ref := range nonDebugRefs(call) {
+					if phi, isPhi := ref.(*ssa.Phi); isPhi && phiCarriedAroundLoop(phi, in.Block(), loopHeaders(f), 0) {
+						r.Bad(rule, p.ShortFn(f)+":ignore-taggable-leaks-to-siblings", p.InstrPos(in), "the option list extended with withIgnoreTaggable() is kept for the following loop iterations: the fields after a Taggable field are walked with the option set, so their own Taggable children are not consulted (and the list aliases the caller's)")
+						return
+					}
+				}
+			}
+			r.Ok(rule, p.ShortFn(f)+":append", p.InstrPos(in), "option list extended without writing into the caller's view of it")
+		})
+	}
+	if n < 3 {
+		r.Und(rule, "instance-floor", "", fmt.Sprintf("only %d appends to option lists found in the walk (>= 3 confirmed by hand)", n))
+	}
+}
+
+// freshOrCopy: v is an empty freshly made slice, or itself a copy built by appending
+// slices of the parameter to one.
+func freshOrCopy(v ssa.Value, derives func(ssa.Value, map[ssa.Value]bool) bool) bool {
+	switch x := v.(type) {
+	case *ssa.MakeSlice:
+		return true
+	case *ssa.Slice:
+		if al, ok := x.X.(*ssa.Alloc); ok && al.Comment == "makeslice" {
+			return true
+		}
+	case *ssa.Call:
+		if b, ok := x.Call.Value.(*ssa.Builtin); ok && b.Name() == "append" {
+			if sl, isSl := x.Call.Args[1].(*ssa.Slice); isSl {
+				if _, isArr := sl.X.(*ssa.Alloc); !isArr && derives(sl.X, map[ssa.Value]bool{}) {
+					return freshOrCopy(x.Call.Args[0], derives)
+				}
+			}
+		}
+	}
+	return false
+}
+
+// ruleTaggableMapTracked (C09.handlers): in both dispatchers that know the Taggable
+// arm (Process for the payload, filterField for struct fields), a successful path that
+// established "Taggable" and "kind == Map" for the value passes through trackMap: a
+// Taggable map is tracked for the final sweep even when none of its tags matched.
+func (c *Ctx) ruleTaggableMapTracked(fn *ssa.Function, construct string) {
+	p, r := c.P, c.R
+	const rule = "C09.handlers"
+	kMapS := fmt.Sprint(c.reflectKind("Map"))
+	n, ok := 0, true
+	for _, pa := range c.enum(rule, fn, PathOpts{}) {
+		rv := pa.RetVals()
+		if rv == nil || !isNilConst(rv[len(rv)-1]) {
+			continue
+		}
+		tg, f1 := hasAtom(pa, func(at Atom) bool {
+			return at.Op == "true" && at.L.Op == "Extract" && at.L.Name == "1" && at.L.Args[0].Is("Assert", "encrypt.Taggable") && !strings.Contains(at.L.String(), "(reflect.Value).Index")
+		})
+		if !f1 || !tg {
+			continue
+		}
+		// the `kind != Map` test of the Taggable arm, taken on its map side
+		mp, f2 := false, false
+		for _, at := range pa.Atoms {
+			if at.Op == "eq" && at.L.Is("Call", "(reflect.Value).Kind") && at.R.Is("Const", kMapS) && !strings.Contains(at.L.String(), "(reflect.Value).Index") {
+				f2, mp = true, !at.Neg
+			}
+		}
+		if !f2 || !mp {
+			continue
+		}
+		taggableCalled, tracked := false, false
+		for _, s := range pa.CallsOn() {
+			switch stepCallName(s) {
+			case "(*filters/encrypt.Filter).filterTaggable":
+				taggableCalled = true
+			case "(*filters/encrypt.trackedMaps).trackMap":
+				if s.Depth == 0 {
+					tracked = true
+				}
+			}
+		}
+		if !taggableCalled {
+			continue
+		}
+		n++
+		if !tracked && ok {
+			ok = false
+			r.Bad(rule, construct, p.InstrPos(pa.End), "a Taggable map is handed to filterTaggable and then left alone: when none of its tags matches a key it is never tracked, the sweep does not visit it and its values leave in plaintext ("+p.PathSummary(pa)+")")
+		}
+	}
+	if ok {
+		r.Check(n > 0, rule, construct, p.Pos(fn.Pos()), fmt.Sprintf("%d successful Taggable-map paths, each tracks the map", n), "no successful path handles a Taggable map")
+	}
+}
+
+// ruleGoCapturedWrites (C04.goroutines): a goroutine started by a Broker / graph
+// function does not assign variables of the starting function (captured by
+// reference) — results are handed back through channels, never through shared
+// locals, unless the assignment happens with a mutex held in the goroutine. Several
+// goroutines appending to one captured error variable race and lose errors.
+func (c *Ctx) ruleGoCapturedWrites(rule string) {
+	p, r := c.P, c.R
+	must := c.MustLocks()
+	n := 0
+	for _, f := range p.FuncsIn(PkgRoot) {
+		eachInstr(f, func(in ssa.Instruction) {
+			g, ok := in.(*ssa.Go)
+			if !ok {
+				return
+			}
+			mc, ok := g.Call.Value.(*ssa.MakeClosure)
+			if !ok {
+				return
+			}
+			n++
+			cl := mc.Fn.(*ssa.Function)
+			bad := false
+			eachInstr(cl, func(ci ssa.Instruction) {
+				st, ok := ci.(*ssa.Store)
+				if !ok {
+					return
+				}
+				if fv, isFV := st.Addr.(*ssa.FreeVar); isFV {
+					if len(must.At(ci)) == 0 {
+						bad = true
+						r.Bad(rule, p.ShortFn(f)+":go-closure-writes:"+fv.Name(), p.InstrPos(ci), "a goroutine started here assigns the starting function's variable "+fv.Name()+" without holding a lock: with more than one such goroutine the writes race and updates are lost")
+					}
+				}
+			})
+			if !bad {
+				r.Ok(rule, p.ShortFn(f)+":go-closure", p.InstrPos(in), "the goroutine does not assign captured variables")
+			}
+		})
+	}
+	if n < 1 {
+		r.Und(rule, "instance-floor", "", "no goroutine closure found in package eventlogger (the collector's launcher is expected)")
+	}
+}
+
+// ruleIgnoreIdentity (C09.ignore): IgnoreTypes exempts exactly the listed types: the
+// predicate returns true only on a path that compared the value's reflect.Type for
+// identity with an element of IgnoreTypes. (Assignability or kind-based matching
+// also exempts every unnamed type with the same underlying type: listing
+// json.RawMessage would switch off filtering of every []byte.)
+func (c *Ctx) ruleIgnoreIdentity() {
+	p, r := c.P, c.R
+	const rule = "C09.ignore"
+	fn := c.Fn(rule, PkgEncrypt, "Filter", "ignore")
+	if fn == nil {
+		return
+	}
+	nTrue := 0
+	for _, pa := range c.enum(rule, fn, PathOpts{}) {
+		rv := pa.RetVals()
+		if rv == nil {
+			continue
+		}
+		if b, ok := constBool(rv[0]); !ok || !b {
+			if !ok {
+				r.Bad(rule, "ignore:result", p.InstrPos(pa.End), "ignore returns a computed value instead of a decision made by type identity: "+pa.TermsAt(pa.LastStep()).Of(rv[0]).String())
+			}
+			continue
+		}
+		nTrue++
+		okId, found := hasAtom(pa, func(at Atom) bool {
+			if at.Op != "eq" {
+				return false
+			}
+			isT := func(t *Term) bool { return t.Is("Call", "(reflect.Value).Type") && t.Args[0].IsParam("1:v") }
+			isEl := func(t *Term) bool {
+				return t.Op == "Index" && t.Args[0].Is("Field", "IgnoreTypes")
+			}
+			return (isT(at.L) && isEl(at.R)) || (isT(at.R) && isEl(at.L))
+		})
+		r.Check(found && okId, rule, "ignore:true", p.InstrPos(pa.End), "a value is ignored only when its reflect.Type is identical to a listed type", "ignore returns true on a path that did not establish v.Type() == IgnoreTypes[i]: types other than the listed ones are exempted from filtering ("+p.PathSummary(pa)+")")
+	}
+	if nTrue == 0 {
+		r.Und(rule, "ignore:true", p.Pos(fn.Pos()), "no path of ignore returns true")
+	}
+}
+
+// ruleExactLeafTypes (C10.exacttype): the sweep reads a map value as a string or as
+// bytes (reflect.Value.String / Bytes) only under a test of its exact type (string,
+// []byte, wrapperspb.StringValue / BytesValue): what is stored back is a plain
+// string or []byte, which only those types accept. A kind test (reflect.String) lets
+// named string types in: a map[string]Email makes SetMapIndex panic and an
+// interface-valued entry changes its dynamic type.
+func (c *Ctx) ruleExactLeafTypes() {
+	p, r := c.P, c.R
+	const rule = "C10.exacttype"
+	fn := c.Fn(rule, PkgEncrypt, "trackedMaps", "processUnfiltered")
+	if fn == nil {
+		return
+	}
+	n := 0
+	for _, ci := range callsTo(fn, func(nm string, cc *ssa.CallCommon) bool {
+		return nm == "(reflect.Value).String" || nm == "(reflect.Value).Bytes"
+	}) {
+		in := ci.(ssa.Instruction)
+		// key.String() of the map key is not a leaf read
+		if t := p.NewTerms(nil).Of(ci.Common().Args[0]); t.Op == "Index" && t.Args[0].Is("Call", "(reflect.Value).MapKeys") {
+			continue
+		}
+		n++
+		ok := false
+		for b := in.Block(); b != nil && b.Idom() != nil; b = b.Idom() {
+			cond, ts, _ := condOf(b.Idom())
+			if cond == nil || !edgeDominates(b.Idom(), ts, in.Block()) {
+				continue
+			}
+			at := p.atomOf(cond, func(v ssa.Value) ssa.Value { return v }, nil, nil)
+			if at.Neg {
+				continue
+			}
+			switch typeFact(at) {
+			case "type==string", "type==[]uint8", "type==wrapperspb.StringValue", "type==wrapperspb.BytesValue":
+				ok = true
+			}
+		}
+		r.Check(ok, rule, "processUnfiltered->"+calleeName(ci.Common()), p.InstrPos(in), "leaf values are read under an exact type test", "a map value is read with "+calleeName(ci.Common())+" without an exact type test (type == string / []byte / wrapper value) dominating the read: named string or byte-slice types get a plain string / []byte stored back (reflect panic for typed maps, changed dynamic type for interface maps)")
+	}
+	if n < 4 {
+		r.Und(rule, "instance-floor", "", fmt.Sprintf("only %d leaf reads found in processUnfiltered (4 confirmed by hand)", n))
+	}
+}
+
+// ruleComposer (C11.composer): composition sees the group exactly as it was gated:
+// Filter.composeFrom is only ever assigned the payload's own ComposeFrom method value
+// (no wrapper that reorders, filters or copies the events first).
+func (c *Ctx) ruleComposer(rule string) {
+	p, r := c.P, c.R
+	n := 0
+	for _, f := range p.FuncsIn(PkgGated) {
+		eachInstr(f, func(in ssa.Instruction) {
+			st, ok := in.(*ssa.Store)
+			if !ok {
+				return
+			}
+			fa, ok := st.Addr.(*ssa.FieldAddr)
+			if !ok || typeShort(fa.X.Type()) != "gated.Filter" {
+				return
+			}
+			if fa.X.Type().Underlying().(*types.Pointer).Elem().Underlying().(*types.Struct).Field(fa.Field).Name() != "composeFrom" {
+				return
+			}
+			n++
+			okV := false
+			if mc, isMC := st.Val.(*ssa.MakeClosure); isMC {
+				if fnv, ok := mc.Fn.(*ssa.Function); ok && strings.Contains(fnv.Name(), "ComposeFrom") && strings.Contains(fnv.Synthetic, "bound method") {
+					okV = true
+				}
+			}
+			r.Check(okV, rule, p.ShortFn(f)+":composeFrom", p.InstrPos(in), "the composer is the payload's own ComposeFrom method value", "Filter.composeFrom is assigned "+p.NewTerms(nil).Of(st.Val).String()+", not the payload's ComposeFrom method value: a wrapper can reorder or alter the group before composition sees it")
+		})
+	}
+	if n < 1 {
+		r.Und(rule, "instance-floor", "", "no assignment of Filter.composeFrom found")
 	}
 }
